@@ -9,6 +9,7 @@ from ..index import AnalysisError, dotted, src, walk_no_nested, names_in
 from ..consteval import Evaluator, Unfoldable, TOP, fold
 from ..objeval import ObjInterpreter, Obj, Opaque
 from ..util import arg, src_canon, returned_names
+from ..cfg import CFG
 from .slots import LOADER, BASEDEMUX, DEMUXMODS, P
 
 MD = P + 'modularDemultiplexer/'
@@ -171,6 +172,63 @@ def r1(ctx):
                          (f'quality cut without the identical sequence cut: {miss_s[:2]}' if miss_s else '') + (f' emitted record(s) {unpaired} get differently cut sequence and qualities: {[emitted[t] for t in unpaired][:1]}' if unpaired else '')),
                          key=f'{q}:seq-qual-alignment', what=f'{q}: sequence and quality are cut with different slices')
     ctx.need('C02-R1', n_fn, 8, 'demultiplex methods that cut reads')
+    # (c) trimming helpers f(.., sequence, qualities) -> (sequence, qualities): on every path both strings are shortened by the same slices, and
+    #     after an operation that changes the length of the sequence in a data dependent way (regex substitution, strip, replace ...) the
+    #     qualities are re-aligned with `qualities[:len(sequence)]` before anything else happens to them
+    n_trim = 0
+    for rel in files:
+        m = ctx.ix.module(rel)
+        for q, ds in m.defs.items():
+            for f in ds:
+                if not isinstance(f, ast.FunctionDef):
+                    continue
+                params = [a.arg for a in f.args.args]
+                rets = [r for r in walk_no_nested(f) if isinstance(r, ast.Return) and isinstance(r.value, ast.Tuple) and len(r.value.elts) == 2
+                        and all(isinstance(e, ast.Name) and e.id in params for e in r.value.elts)]
+                if not rets or len({(r.value.elts[0].id, r.value.elts[1].id) for r in rets}) != 1:
+                    continue
+                S, Q = rets[0].value.elts[0].id, rets[0].value.elts[1].id
+                if not any(isinstance(x, ast.Subscript) and isinstance(x.value, ast.Name) and x.value.id == Q for x in walk_no_nested(f)):
+                    continue
+                n_trim += 1
+                cfg = CFG(f.body, exceptions=False)
+                bad = []
+
+                def step(state, node, label):
+                    aligned, ps, pq = state      # aligned: no rewrite of S is waiting for its re-alignment and nothing went wrong before
+                    a = node.ast
+                    if node.kind == 'stmt' and isinstance(a, ast.Assign) and len(a.targets) == 1 and isinstance(a.targets[0], ast.Name):
+                        t, v = a.targets[0].id, a.value
+                        if t == S:
+                            if isinstance(v, ast.Subscript) and isinstance(v.value, ast.Name) and v.value.id == S:
+                                ps = ps + (src(v.slice),)
+                            else:
+                                # data dependent rewrite: everything before must be balanced, then wait for the re-alignment
+                                aligned = 'broken' if (aligned == 'broken' or ps != pq) else 'pending'
+                                ps, pq = (), ()
+                        elif t == Q:
+                            if isinstance(v, ast.Subscript) and isinstance(v.value, ast.Name) and v.value.id == Q:
+                                if src(v.slice).replace(' ', '') == f':len({S})':
+                                    if aligned == 'pending' and not pq:
+                                        aligned = True
+                                    elif aligned is True and ps != pq:
+                                        pass
+                                    ps, pq = ((), ()) if aligned is True else (ps, pq)
+                                else:
+                                    pq = pq + (src(v.slice),)
+                            else:
+                                aligned = 'broken'
+                    return (aligned, ps, pq)
+                for pth, (aligned, ps, pq) in cfg.paths(state0=(True, (), ()), step=step):
+                    if cfg.nodes[pth[-1][0]].info != 'return':
+                        continue
+                    if aligned is not True or ps != pq:
+                        bad.append((aligned, ps, pq))
+                ctx.counters['paths_enumerated'] += 1
+                ctx.emit('C02-R1', not bad, rel, f, f'{q}: on every path {S} and {Q} are shortened by the same slices and re-aligned after a length changing rewrite of {S}' if not bad else
+                         f'{q}: a path returns {S} / {Q} of different lengths (aligned after the last rewrite: {bad[0][0]}, slices on {S}: {list(bad[0][1])}, on {Q}: {list(bad[0][2])})',
+                         key=f'{q}:trim-keeps-lengths', what=f'{q}: trimmed sequence and qualities can have different lengths')
+    ctx.need('C02-R1', n_trim, 1, 'trimming helpers returning (sequence, qualities)')
     # the scattered helpers are twins
     a, b = ctx.fn(BASEDEMUX, 'apply_slices_seq'), ctx.fn(BASEDEMUX, 'apply_slices_qual')
     norm = lambda f: ast.dump(ast.Module(body=f.body, type_ignores=[])).replace("attr='sequence'", "attr='@'").replace("attr='qual'", "attr='@'")
@@ -527,6 +585,11 @@ def r8(ctx):
                  what=f'{pname}: layout differs from the reference table')
     gone = [p_ for p_ in pinned if p_ not in cur]
     ctx.emit('C02-R8', not gone, LOADER, None, 'every pinned strategy is still registered and resolvable' if not gone else f'pinned strategies no longer resolved: {gone}', key='pinned-present', nontrivial=False)
+    provenance(ctx, 'C02-R8')
+
+
+def provenance(ctx, rid='C02-R8'):
+    """raw / corrected barcode and UMI tags are written from the values cut for that role (shared with C04)"""
     # tag provenance in the two base classes
     for q in ('UmiBarcodeDemuxMethod.demultiplex', 'ScatteredUmiBarcodeDemuxMethod.demultiplex'):
         f = ctx.fn(BASEDEMUX, q)
@@ -564,13 +627,15 @@ def r8(ctx):
             raw_from_seq = kind_of(rawname) == {('sequence', 'barcode')}
             ok = mp.get('bc') == rawname and mp.get('BC') == corr and mp.get('bi') == idn and mp.get('MX') == 'self.shortName' and raw_from_seq
             detail = f'bc <- {mp.get("bc")} (raw: {sorted(kind_of(rawname), key=str)}), BC <- {mp.get("BC")} (corrected), bi <- {mp.get("bi")}, MX <- {mp.get("MX")}; whitelist queried with {rawname}'
-        ctx.emit('C02-R8', ok, BASEDEMUX, up[0] if up else f, f'{q}: {detail}', key=f'{q}:tag-provenance', what=f'{q}: a barcode tag records the wrong value (raw vs corrected)')
+        ctx.emit(rid, ok, BASEDEMUX, up[0] if up else f, f'{q}: {detail}', key=f'{q}:tag-provenance', what=f'{q}: a barcode tag records the wrong value (raw vs corrected)')
         rx = [s_ for s_ in walk_no_nested(f) if isinstance(s_, ast.Assign) and isinstance(s_.targets[0], ast.Subscript) and src(s_.targets[0].value).endswith('.tags')
               and isinstance(s_.targets[0].slice, ast.Constant) and s_.targets[0].slice.value == 'RX']
         rq = [c for c in walk_no_nested(f) if isinstance(c, ast.Call) and isinstance(c.func, ast.Attribute) and c.func.attr == 'addTagByTag' and c.args and isinstance(c.args[0], ast.Constant) and c.args[0].value == 'RQ']
         okx = len(rx) == 1 and len(rq) == 1 and kind_of(src(rx[0].value)) == {('sequence', 'umi')} and kind_of(src(rq[0].args[1])) == {('qual', 'umi')}
-        ctx.emit('C02-R8', okx, BASEDEMUX, rx[0] if rx else f, f'{q}: RX <- {src(rx[0].value) if rx else None} {sorted(kind_of(src(rx[0].value))) if rx else ""}, '
+        ctx.emit(rid, okx, BASEDEMUX, rx[0] if rx else f, f'{q}: RX <- {src(rx[0].value) if rx else None} {sorted(kind_of(src(rx[0].value))) if rx else ""}, '
                  f'RQ <- {src(rq[0].args[1]) if rq else None} {sorted(kind_of(src(rq[0].args[1]))) if rq else ""}', key=f'{q}:umi-tags', nontrivial=False)
+
+
 
 
 META = {
